@@ -12,6 +12,8 @@ import (
 	"strings"
 
 	"github.com/GuanceCloud/platypus/pkg/engine"
+	plruntime "github.com/GuanceCloud/platypus/pkg/engine/runtime"
+	"github.com/GuanceCloud/platypus/pkg/engine/runtimev2"
 	"github.com/GuanceCloud/platypus/pkg/inimpl/guancecloud/input"
 )
 
@@ -39,29 +41,50 @@ func loadOps(path string) ([]*histOp, error) {
 	return ops, err
 }
 
-// opResult performs one operation (load, and run when it loads) with POOLED objects and renders the
-// outcome canonically (maps sorted), so that two outcomes are equal iff their strings are equal.
-func opResult(o *histOp) string {
-	var b strings.Builder
-	obs := &runObs{fireAt: o.FireAt}
+// loadedOp: what a load operation leaves behind for later re-runs in the same history
+type loadedOp struct {
+	v2  *runtimev2.Script
+	v1  *plruntime.Script
+	err string
+}
+
+func loadOp(o *histOp, obs *runObs) (l loadedOp) {
 	defer func() {
 		if r := recover(); r != nil {
-			fmt.Fprintf(&b, "PANIC %v", r)
+			l.err = fmt.Sprintf("PANIC %v", r)
 		}
 	}()
 	if o.V2 {
 		sc, err := engine.ParseV2(o.Main, o.Scripts[o.Main], v2Table(obs))
 		if err != nil {
-			return "load-error: " + err.Error()
+			return loadedOp{err: "load-error: " + err.Error()}
 		}
-		e := sc.Run(obs)
-		fmt.Fprintf(&b, "run-error: %v\nlog: %v\n", errStr(e), showLog(obs.log))
-		return b.String()
+		return loadedOp{v2: sc}
 	}
 	call, check := v1Tables(obs)
 	ok, errs := engine.ParseScript(o.Scripts, call, check)
 	if e, bad := errs[o.Main]; bad {
-		return "load-error: " + e.Error()
+		return loadedOp{err: "load-error: " + e.Error()}
+	}
+	return loadedOp{v1: ok[o.Main]}
+}
+
+// runLoaded runs a loaded script with POOLED objects and renders the outcome canonically (maps sorted), so that two
+// outcomes are equal iff their strings are equal.
+func runLoaded(o *histOp, l loadedOp, obs *runObs) string {
+	var b strings.Builder
+	defer func() {
+		if r := recover(); r != nil {
+			fmt.Fprintf(&b, "PANIC %v", r)
+		}
+	}()
+	if l.err != "" {
+		return l.err
+	}
+	if o.V2 {
+		e := l.v2.Run(obs)
+		fmt.Fprintf(&b, "run-error: %v\nlog: %v\n", errStr(e), showLog(obs.log))
+		return b.String()
 	}
 	f, err := o.Pt.goFields()
 	if err != nil {
@@ -73,7 +96,7 @@ func opResult(o *histOp) string {
 	}
 	pt := input.GetPoint()
 	input.InitPt(pt, o.Pt.Meas, tags, f, fixedTime)
-	e := ok[o.Main].Run(pt, obs)
+	e := l.v1.Run(pt, obs)
 	fmt.Fprintf(&b, "run-error: %v\nlog: %v\nmeas: %q time: %d drop: %v\n", errStr(e), showLog(obs.log), pt.Measurement, pt.Time.UnixNano(), pt.Drop)
 	keys := []string{}
 	for k := range pt.Fields {
@@ -103,6 +126,13 @@ func opResult(o *histOp) string {
 	return b.String()
 }
 
+// opResult performs one operation: load, and run when it loads.
+func opResult(o *histOp) (string, loadedOp, *runObs) {
+	obs := &runObs{fireAt: o.FireAt}
+	l := loadOp(o, obs)
+	return runLoaded(o, l, obs), l, obs
+}
+
 func errStr(e any) string {
 	if e == nil {
 		return "<nil>"
@@ -121,7 +151,8 @@ func historyRef(args []string) (any, error) {
 		return nil, err
 	}
 	i, _ := strconv.Atoi(args[1])
-	return map[string]any{"op": i, "result": opResult(ops[i-1])}, nil
+	res, _, _ := opResult(ops[i-1])
+	return map[string]any{"op": i, "result": res}, nil
 }
 
 // replay-history <ops.ndjson> <histories.ndjson>: every history in this one process, pinned to one P with the
@@ -161,16 +192,35 @@ func replayHistory(args []string) (any, error) {
 		if len(h.H) > 1 {
 			sum.Distinct++
 		}
+		loaded := map[int]loadedOp{}
+		observers := map[int]*runObs{}
 		for pos, op := range h.H {
 			nops++
-			got := opResult(ops[op-1])
-			if got != refs[op] {
+			var got string
+			base := op
+			if op > len(ops) { // re-run of the script an earlier operation of this history loaded
+				base = op - len(ops)
+				l, was := loaded[base]
+				if !was {
+					return fmt.Errorf("history %v re-runs operation %d before it was performed", h.H, base)
+				}
+				obs := observers[base]
+				obs.log, obs.polls, obs.atPoll, obs.fireAt = nil, 0, nil, ops[base-1].FireAt
+				got = runLoaded(ops[base-1], l, obs)
+			} else {
+				got, loaded[op], observers[op] = opResult(ops[op-1])
+			}
+			if got != refs[base] {
 				kinds := []string{}
 				for _, x := range h.H[:pos+1] {
-					kinds = append(kinds, ops[x-1].Kind)
+					if x > len(ops) {
+						kinds = append(kinds, "rerun:"+ops[x-len(ops)-1].Kind)
+					} else {
+						kinds = append(kinds, ops[x-1].Kind)
+					}
 				}
 				sum.miss("history:"+strings.Join(kinds, ">"), map[string]any{"history": h.H[:pos+1], "kinds": kinds,
-					"operation": ops[op-1].Scripts, "alone_in_a_fresh_process": refs[op], "after_this_history": got})
+					"operation": ops[base-1].Scripts, "alone_in_a_fresh_process": refs[base], "after_this_history": got})
 				break
 			}
 		}
